@@ -510,6 +510,8 @@ def run(prog, ctx):
                    "coordinate reflection of C11/X1: a read following an isoform is verified identically on both strands")
     from . import x1_pairs
     n7 = x1_pairs.run_function_pairs(prog, ctx, "E7", {"src/polya_verification.py", "src/polya_finder.py"})
+    from . import c11 as _c11
+    _c11.x6(prog, ctx, tag="E7", canonical=False)          # twin event tables hoisted into constants are compared as well
     ctx.floor("E7", "polyA / polyT function pairs", n7, 5)
     ctx.rule("E5", "in the comparators, every `f(a) - f(b) <(=) tolerance(params)` with like terms on both sides is wrapped in abs() "
                    "(one-sided comparison rule)")
